@@ -92,9 +92,11 @@ CLAIMED = {
          'the runtime part — hash randomisation, repeated calls, read-only calls not influencing later calls — is decided by '
          'running the whole API battery in separate processes under different PYTHONHASHSEED values, with the call order '
          'reversed in every other process and within each process, and comparing transcripts byte for byte',
-         'Partial by nature: Gallina functions are deterministic, so the theorems cover only that the modelled taxonomy functions '
-         'do not depend on the order in which sets are built (common_hypernyms sorted, lowest_common_hypernyms independent of '
-         'argument order). Hash-seed independence of every public result (queries, navigation, relations, closures, searches, '
+         'Partial by nature: Gallina functions are deterministic, so the theorems cover what hash-order independence means at the '
+         'model level: the taxonomy functions depend on the hypernym relation as a set, not on its listing order — same set of '
+         'hypernym paths, and equal min/max depth, common_hypernyms and lowest_common_hypernyms (as lists, sorted), shortest-path '
+         'length, taxonomy_depth and roots; only the node list of shortest_path can differ, and only in the choice among equally '
+         'short chains to the same turning point (witness; listing order is database content, not hash order). Hash-seed independence of every public result (queries, navigation, relations, closures, searches, '
          'translations, taxonomy, similarity, IC incl. key order, validate item order, dump and export bytes) and purity of '
          'read-only calls are established by differential execution only.',
          'Trusted: Coq kernel; the battery covers the calls listed in the evidence; processes and seeds explored are listed in '
